@@ -9,14 +9,41 @@
     address/address.go ([Parse]), events/events.go ([handleSubscriber]).
 
     Goroutine exit and promptness themselves are runtime behaviour: the driver
-    (harness/cmd/vcheck/c18.go) observes them; this model is the bookkeeping they rest on. *)
+    (harness/cmd/vcheck/c18.go) observes them; this model is the bookkeeping they rest on.
+
+    Everything that depends on how the store (or its instance) was opened is a function of a
+    [config]: [CreateDBOptions.Replicate], [NewStoreOptions.MaxHistory], and the instance
+    directory ":memory:" (baseorbitdb/orbitdb.go [NewOrbitDB], cacheleveldown [Load]/[Destroy]). *)
 From Orbit Require Export Model.Base.
+
+(** * Configurations *)
+Record config := mkCfg {
+  (** CreateDBOptions.Replicate (default true).  false: InitBaseStore does not call
+      [replicate()]: no pubsub subscription, no store listener, no topic listeners, no head
+      exchange.  The replicator is created all the same, and [Sync] (also reached through the
+      instance's direct-channel monitor), [LoadMoreFrom], the saved queue of [LoadFromSnapshot]
+      and the missing ancestors of an unlimited [Load] feed it. *)
+  cf_replicate : bool;
+  (** the instance directory is ":memory:": every cache is an in-memory leveldb, Destroy
+      touches nothing on disk, nothing survives the instance *)
+  cf_memory : bool;
+  (** NewStoreOptions.MaxHistory is set (CreateDBOptions has no such field; a registered store
+      constructor can set it): every Load is a limited one (a limited load leaves older entries
+      out on purpose and hands nothing to the replicator) *)
+  cf_limited : bool
+}.
+
+Definition cfg_default : config := mkCfg true false false.
+
+Definition all_configs : list config :=
+  [mkCfg true false false; mkCfg true false true; mkCfg true true false; mkCfg true true true;
+   mkCfg false false false; mkCfg false false true; mkCfg false true false; mkCfg false true true].
 
 (** * Mechanism switches
 
     [true] = the repaired behaviour, [false] = the pinned commit ([sw_pinned]).  The current values are
     what the correspondence check (Corr/C18.v) runs the model with; they live in
-    Model/Current.v ([c18_*_current], all [true] since the four fix: commits). *)
+    Model/Current.v ([c18_*_current]). *)
 Record switches := mkSw {
   (** replicator.go processHash: the progress consumer keeps receiving until its channel is
       closed (true) instead of leaving as soon as the context is cancelled (false) *)
@@ -27,11 +54,19 @@ Record switches := mkSw {
   sw_rejects_dotdot : bool;
   (** cacheleveldown Destroy closes a still-loaded cache itself, under the lock it already
       holds (true), instead of calling the cache's Close, which takes that lock again (false) *)
-  sw_destroy_inline : bool
+  sw_destroy_inline : bool;
+  (** base_store.go Load and LoadFromSnapshot run under a context that also ends with the
+      store's own context (true), instead of the caller's context alone (false): a load
+      waiting for a block nobody provides ends when the store is closed *)
+  sw_load_bound : bool;
+  (** cacheleveldown Destroy removes the files OF the database's leveldb directory, and the
+      directory if nothing else is in it (true), instead of the whole tree below it (false): the
+      cache directory of /orbitdb/<root>/a/b lies inside the one of /orbitdb/<root>/a *)
+  sw_destroy_own_files : bool
 }.
 
-Definition sw_pinned : switches := mkSw false false false false.
-Definition sw_fixed : switches := mkSw true true true true.
+Definition sw_pinned : switches := mkSw false false false false false false.
+Definition sw_fixed : switches := mkSw true true true true true true.
 
 (** * Signals *)
 Inductive signal :=
@@ -91,6 +126,10 @@ Inductive activity :=
 | AMessagesListener (* pubSubChanListener: range chMessages *)
 | ANewPeer         (* onNewPeerJoined: Connect/Send with b.ctx *)
 | ASyncLoad        (* go Replicator().Load (from Sync): wg.Wait on its workers *)
+| ASnapshotLoad    (* go Replicator().Load (from LoadFromSnapshot, the saved queue): the same *)
+| AAncestorsLoad   (* go Replicator().Load (from an unlimited Load, the missing ancestors): the same *)
+| ALoadHeads       (* Load's own goroutines (one per cached head, inside a block fetch, and the
+                      progress consumer): they run under Load's context *)
 | AReplCtxBinder   (* rootContextWithCancel: select { rootCtx.Done, ctx.Done } *)
 | AReplWorkerWaiting   (* processOne: sem.Acquire(ctx) / parked before its fetch *)
 | AReplWorkerFetching  (* processOne inside a fetch that fails once the context is cancelled,
@@ -108,7 +147,8 @@ Definition wake_set (sw : switches) (a : activity) : list signal :=
   match a with
   | AMainLoop | AStoreListener | AEventWrite | ANewPeer => [SigStoreCtx]
   | APeersListener | AMessagesListener => [SigTopicChans]
-  | ASyncLoad => [SigWorkersDone]
+  | ASyncLoad | ASnapshotLoad | AAncestorsLoad => [SigWorkersDone]
+  | ALoadHeads => SigCallerCtx :: (if sw_load_bound sw then [SigStoreCtx] else [])
   | AReplCtxBinder => [SigReplRootCtx; SigWorkersDone]
   | AReplWorkerWaiting | AReplWorkerFetching => [SigReplRootCtx]
   | AReplWorkerDelivering =>
@@ -128,26 +168,50 @@ Definition woken (sw : switches) (raised : list signal) (a : activity) : bool :=
 Definition is_worker (a : activity) : bool :=
   match a with AReplWorkerWaiting | AReplWorkerFetching | AReplWorkerDelivering => true | _ => false end.
 
+(** activities a store (not the instance) starts *)
+Definition store_activity (a : activity) : bool :=
+  match a with AMonitorDirect => false | _ => true end.
+
+(** activities that only exist once the store has subscribed to its pubsub topic
+    ([replicate()]: the store listener and its per-write goroutines, the two topic listeners,
+    head exchange with a new peer, and what the real adapter and direct channel start for them) *)
+Definition needs_topic (a : activity) : bool :=
+  match a with
+  | AStoreListener | AEventWrite | APeersListener | AMessagesListener | ANewPeer
+  | AWatchPeers | AWatchMessages | ADirectTopic => true
+  | _ => false
+  end.
+
+(** can a store opened with configuration [cfg] have started activity [a]? *)
+Definition started_by (cfg : config) (a : activity) : bool :=
+  store_activity a
+  && implb (needs_topic a) (cf_replicate cfg)
+  && implb (match a with AAncestorsLoad => true | _ => false end) (negb (cf_limited cfg)).
+
 (** * The store *)
-Record store := mkStore { st_open : bool; st_acts : list activity; st_raised : list signal }.
+Record store := mkStore { st_cfg : config; st_open : bool; st_acts : list activity; st_raised : list signal }.
 
-Definition open_store (acts : list activity) : store := mkStore true acts [].
+Definition open_store (cfg : config) (acts : list activity) : store := mkStore cfg true acts [].
 
-(** the signals BaseStore.Close raises itself, in order *)
+(** the signals BaseStore.Close raises itself, in order - the same for every configuration: in
+    particular [Replicator().Stop()] (SigReplRootCtx) is not conditional on [Replicate], it is
+    the only thing that ends a replication worker ([worker_needs_stop] in the proofs) *)
 Definition close_signals (sw : switches) : list signal :=
   [SigStoreCtx; SigCloseFunc; SigReplRootCtx; SigReplEmitters; SigStoreEmitters]
   ++ (if sw_close_unsubscribes sw then [SigUnsubscribeAll] else [])
   ++ [SigStatusReset; SigCacheClosed].
 
 (** what other components raise in consequence *)
-Definition consequences (sw : switches) (acts : list activity) (raised : list signal) : list signal :=
-  let r1 := if smem SigStoreCtx raised then raise SigTopicChans raised else raised in
+Definition consequences (sw : switches) (cfg : config) (acts : list activity) (raised : list signal) : list signal :=
+  (* the adapter only has channels to close if the store subscribed *)
+  let r1 := if smem SigStoreCtx raised && cf_replicate cfg then raise SigTopicChans raised else raised in
   if forallb (fun a => implb (is_worker a) (woken sw r1 a)) acts then raise SigWorkersDone r1 else r1.
 
 (** one call of Close: new state, the signals this call raised itself, its return value *)
 Definition close_step (sw : switches) (s : store) : store * list signal * outcome unit :=
   if st_open s then
-    (mkStore false (st_acts s) (consequences sw (st_acts s) (raise_all (close_signals sw) (st_raised s))),
+    (mkStore (st_cfg s) false (st_acts s)
+             (consequences sw (st_cfg s) (st_acts s) (raise_all (close_signals sw) (st_raised s))),
      close_signals sw, Ok tt)
   else (s, [], Ok tt).          (* isClosed(): return nil *)
 
@@ -191,14 +255,19 @@ Inductive opkind :=
 (* in flight when Close (or Drop) ran *)
 | OpInflightAppend | OpInflightPersist | OpInflightLoad | OpInflightDropWrite
 (* Drop through a closed handle after the database was opened again on the same instance *)
-| OpDropStale.
+| OpDropStale
+(* LoadMoreFrom running (its workers inside a block fetch that never completes) when Close or Drop ran *)
+| OpInflightLoadMoreFrom
+(* Load / LoadFromSnapshot inside a fetch that never completes (a block nobody provides) when Close ran *)
+| OpInflightLoadStuck | OpInflightSnapshotStuck.
 
 Definition all_ops : list opkind :=
   [OpLogAdd; OpLogGet; OpLogList; OpKvPut; OpKvDelete; OpKvGet; OpKvAll; OpDocPut; OpDocDelete; OpDocGet;
    OpDocQuery; OpDocPutBatch; OpDocPutAll; OpLoad; OpSync; OpLoadFromSnapshot; OpLoadMoreFrom; OpAccessors;
    OpClose; OpDrop; OpLegacyEmit; OpLegacySubscribe; OpWriteAfterDrop; OpLoadAfterDrop; OpCloseAfterDrop;
    OpDropAfterDrop; OpInstClose; OpInstOpen; OpInstCreate; OpStoreWriteInstClosed; OpStoreReadInstClosed;
-   OpInflightAppend; OpInflightPersist; OpInflightLoad; OpInflightDropWrite; OpDropStale].
+   OpInflightAppend; OpInflightPersist; OpInflightLoad; OpInflightDropWrite; OpDropStale;
+   OpInflightLoadMoreFrom; OpInflightLoadStuck; OpInflightSnapshotStuck].
 
 (** harmless results *)
 Inductive result :=
@@ -235,6 +304,8 @@ Definition op_after_close (o : opkind) : outcome result :=
   | OpInflightLoad => Err EOther
   | OpInflightDropWrite => Ok RDone
   | OpDropStale => Ok RDone     (* when it answers at all: see [drop_locking] *)
+  | OpInflightLoadMoreFrom => Ok RNoop   (* its workers give up (root context), the wait group opens *)
+  | OpInflightLoadStuck | OpInflightSnapshotStuck => Err EOther   (* when it answers at all: see [load_ends] *)
   end.
 
 (** * The cache manager's lock
@@ -254,15 +325,21 @@ Definition destroy_locking (sw : switches) (cache_loaded : bool) : locking :=
 Definition drop_locking (sw : switches) (handle_open loaded_again : bool) : locking :=
   destroy_locking sw (if handle_open then false else loaded_again).
 
+(** * A load waiting for a block nobody provides
+
+    Load and LoadFromSnapshot fetch under their caller's context; Close cancels the store's
+    context.  Whether a load that waits for a block ends with Close depends on whether its
+    context is bound to the store's. *)
+Definition load_ends (sw : switches) : locking := if sw_load_bound sw then Returns else Deadlocks.
+
 (** outcome class of an operation as the driver sees it: 0 ok, 1 error, 2 panic, 3 never answers *)
 Definition op_class (sw : switches) (o : opkind) : N :=
+  let answered := match op_after_close o with Ok _ => 0 | Err _ => 1 | Panic _ => 2 end%N in
   match o with
-  | OpDropStale =>
-    match drop_locking sw false true with
-    | Deadlocks => 3%N
-    | Returns => match op_after_close o with Ok _ => 0 | Err _ => 1 | Panic _ => 2 end%N
-    end
-  | _ => match op_after_close o with Ok _ => 0 | Err _ => 1 | Panic _ => 2 end%N
+  | OpDropStale => match drop_locking sw false true with Deadlocks => 3%N | Returns => answered end
+  | OpInflightLoadStuck | OpInflightSnapshotStuck =>
+    match load_ends sw with Deadlocks => 3%N | Returns => answered end
+  | _ => answered
   end.
 
 (** * Cache directories (segment level) *)
@@ -311,14 +388,43 @@ Fixpoint is_prefix (a b : list N) : bool :=
   | x :: a', y :: b' => N.eqb x y && is_prefix a' b'
   end.
 
-(** the files of a directory tree, each by its path; os.RemoveAll(k) *)
-Definition destroy (k : list N) (fs : list (list N)) : list (list N) :=
-  filter (fun f => negb (is_prefix k f)) fs.
+(** two cache directories are the same one *)
+Definition key_eqb (a b : list N) : bool := is_prefix a b && is_prefix b a.
 
-(** Drop = Close, then cache.Destroy(o.directory, address): does it remove (the directory
-    of) key [k']? *)
-Definition drop_removes (dir : list N) (root : N) (path : list seg) (k' : list N) : bool :=
-  is_prefix (datastore_key dir root path) k'.
+(** [f] is an entry directly inside directory [k] *)
+Definition is_child (k f : list N) : bool := Nat.eqb (length f) (S (length k)) && is_prefix k f.
+
+(** the files of a directory tree, each by its path.  Destroy of the database whose cache
+    directory is [k]: os.RemoveAll(k), i.e. everything below [k] (pinned); or the files that lie
+    directly in [k], which are the ones leveldb keeps there (repaired) *)
+Definition destroy (sw : switches) (k : list N) (fs : list (list N)) : list (list N) :=
+  filter (fun f => negb (if sw_destroy_own_files sw then is_child k f else is_prefix k f)) fs.
+
+(** cacheleveldown.Destroy: nothing is removed from disk when the directory is ":memory:" *)
+Definition destroy_cfg (sw : switches) (cfg : config) (k : list N) (fs : list (list N)) : list (list N) :=
+  if cf_memory cfg then fs else destroy sw k fs.
+
+(** Drop = Close, then cache.Destroy(o.directory, address): does it remove the cache directory
+    [k'] of another database (the files directly in it)? *)
+Definition drop_removes (sw : switches) (cfg : config) (dir : list N) (root : N) (path : list seg) (k' : list N) : bool :=
+  negb (cf_memory cfg) &&
+  (if sw_destroy_own_files sw then key_eqb (datastore_key dir root path) k'
+   else is_prefix (datastore_key dir root path) k').
+
+(** The cache manager keeps its table of loaded caches under [datastore_key]: two addresses
+    share one leveldb (so that closing or destroying the one closes or destroys the other's)
+    exactly when their keys coincide *)
+Definition shares_cache (dir : list N) (r1 : N) (p1 : list seg) (r2 : N) (p2 : list seg) : bool :=
+  key_eqb (datastore_key dir r1 p1) (datastore_key dir r2 p2).
+
+(** a write on the open database (r2, p2) after database (r1, p1) of the same instance was closed *)
+Definition write_after_sibling_close (dir : list N) (r1 : N) (p1 : list seg) (r2 : N) (p2 : list seg) : outcome result :=
+  if shares_cache dir r1 p1 r2 p2 then Err EClosed else Ok RDone.
+
+(** * Reopening
+    the entries a fresh instance on the same directory finds, given the acknowledged ones:
+    all of them - unless the directory is ":memory:", where nothing outlives the instance *)
+Definition durable (cfg : config) : bool := negb (cf_memory cfg).
 
 (** * Tables shared with the driver *)
 Definition op_of_code (n : N) : option opkind := nth_error all_ops (N.to_nat n - 1).
@@ -331,7 +437,7 @@ Definition site_of (a : activity) : N :=
   match a with
   | AMainLoop => 1 | AStoreListener => 2 | AEventWrite => 3
   | APeersListener | AMessagesListener => 4 | ANewPeer => 5
-  | ASyncLoad => 7 | AReplCtxBinder => 8
+  | ASyncLoad => 7 | ASnapshotLoad => 18 | AAncestorsLoad | ALoadHeads => 6 | AReplCtxBinder => 8
   | AReplWorkerWaiting | AReplWorkerFetching | AReplWorkerDelivering => 9
   | AReplProgress => 11 | ALegacySubscriber => 12 | AMonitorDirect => 13
   | AWatchPeers => 14 | AWatchMessages => 15 | ADirectTopic => 16
@@ -344,26 +450,41 @@ Fixpoint ins_sorted (x : N) (l : list N) : list N :=
   end.
 Definition sites (l : list activity) : list N := fold_right (fun a acc => ins_sorted (site_of a) acc) [] l.
 
-Definition base_acts : list activity := [AMainLoop; AStoreListener; APeersListener; AMessagesListener].
+Definition base_acts (cfg : config) : list activity :=
+  AMainLoop :: (if cf_replicate cfg then [AStoreListener; APeersListener; AMessagesListener] else []).
 
-(** the store's background activities at the scripted moments of the driver *)
-Definition acts_at (when : N) : list activity :=
-  match when with
-  | 3 => base_acts ++ [ASyncLoad; AReplCtxBinder; AReplWorkerWaiting]
-  | 4 => base_acts ++ [ASyncLoad; AReplCtxBinder; AReplWorkerFetching]
-  | 7 => base_acts ++ [ALegacySubscriber]
-  | 8 => base_acts ++ [ASyncLoad; AReplCtxBinder; AReplWorkerWaiting]
-  | 10 => base_acts ++ [AWatchPeers; AWatchMessages; ADirectTopic; ANewPeer]
-  | 11 => base_acts ++ [ASyncLoad; AReplCtxBinder; AReplWorkerDelivering; AReplProgress]
-  | _ => base_acts ++ [AEventWrite]
-  end%N.
+(** a replication request whose workers are inside a block fetch *)
+Definition fetching_acts : list activity := [AReplCtxBinder; AReplWorkerFetching; AReplProgress].
+
+(** the store's background activities at the scripted moments of the driver (what a store of
+    configuration [cfg] cannot have started is left out) *)
+Definition acts_at (cfg : config) (when : N) : list activity :=
+  base_acts cfg ++
+  filter (started_by cfg)
+    match when with
+    | 3 => [ASyncLoad; AReplCtxBinder; AReplWorkerWaiting]
+    | 4 => [ASyncLoad; AReplCtxBinder; AReplWorkerFetching]
+    | 7 => [ALegacySubscriber]
+    | 8 => [ASyncLoad; AReplCtxBinder; AReplWorkerWaiting]
+    | 10 => [AWatchPeers; AWatchMessages; ADirectTopic; ANewPeer]
+    | 11 => [ASyncLoad; AReplCtxBinder; AReplWorkerDelivering; AReplProgress]
+    | 12 => ASyncLoad :: fetching_acts
+    | 13 | 16 | 17 => fetching_acts
+    | 14 => ASnapshotLoad :: fetching_acts
+    | 15 => AAncestorsLoad :: fetching_acts
+    | 18 => [ALoadHeads]
+    | _ => [AEventWrite]
+    end%N.
 
 (** moments at which the whole instance is closed *)
 Definition instance_level (when : N) : bool :=
-  match when with 6 | 9 | 10 => true | _ => false end%N.
+  match when with 6 | 9 | 10 | 17 => true | _ => false end%N.
 
-(** creation sites of the goroutines still there after Close at moment [when] *)
-Definition predicted_leaks (sw : switches) (when : N) : list N :=
+(** creation sites of the goroutines still there after Close at moment [when]; [cfgs]: the
+    configuration of the store (store-level moments) or of every database of the instance *)
+Definition predicted_leaks (sw : switches) (cfgs : list config) (when : N) : list N :=
   if instance_level when then
-    sites (istuck sw (iclose sw (mkInst [open_store (acts_at when); open_store base_acts] [AMonitorDirect] [])))
-  else sites (stuck sw (close sw (open_store (acts_at when)))).
+    sites (istuck sw (iclose sw (mkInst (map (fun c => open_store c (acts_at c when)) cfgs) [AMonitorDirect] [])))
+  else
+    let cfg := hd cfg_default cfgs in
+    sites (stuck sw (close sw (open_store cfg (acts_at cfg when)))).
